@@ -62,6 +62,18 @@ size_t merge_existing_groups(econf_file *dest_kf, struct file_entry **fe, econf_
 	for (size_t j = etc_start; j < ef->length; j++) {
 	  // Check for matching groups
 	  if (!strcmp(uf->file_entry[i - 1].group, ef->file_entry[j].group)) {
+	    // Only the first definition of a key in ef is visible to the
+	    // getters, so only that one overrides.
+	    bool visible = true;
+	    for (size_t l = 0; l < j; l++) {
+	      if (!strcmp(ef->file_entry[l].group, ef->file_entry[j].group) &&
+		  !strcmp(ef->file_entry[l].key, ef->file_entry[j].key)) {
+		visible = false;
+		break;
+	      }
+	    }
+	    if (!visible)
+	      continue;
 	    new_key = true;
 	    // Everything merged so far is searched, not only the current run
 	    // of this group: a group can be opened more than once in uf.
